@@ -78,6 +78,7 @@ impl Profile for CustomChain {
         sg.fail_pm = *rng.pick(&[0, 100]);
         sg.funds_pm = *rng.pick(&[0, 200]);
         sg.gas_limits = rng.chance(1, 2);
+        sg.admin_pm = *rng.pick(&[0, 0, 300]);
         sg.typed_pct = *rng.pick(&[0, 50, 100]);
         sg.max_depth = rng.range(0, 2 + crate::extra_depth()) as u32;
         let mut tg = TrafficGen { sg, codes: &wp.codes, cross_migrate: false, model: vec![] };
